@@ -352,6 +352,9 @@ Record pthread := PThread {
 
 Record pconfig := PConfig {
   p_new : bool;           (* the field New: true = a hook allocating a new item; false = nil. Never written. *)
+  p_poolnew : bool;       (* the inner sync.Pool's own field New: true = set to a hook wrapping p.New (what the code
+                             before the repair installed on every Get); false = nil, as the zero value of Pool has it.
+                             Read by sync.Pool.Get on a miss. Never written. *)
   p_bag : list val;       (* sync.Pool *)
   p_threads : list pthread;
   p_trace : list pevent   (* ghost, newest first *)
@@ -375,16 +378,17 @@ Fixpoint set_pthread (ths : list pthread) (t : tid) (th : pthread) : list pthrea
   end.
 
 (* The shared state of a Pool is the plain field [New] ([p_new]), the inner
-   sync.Pool ([p_bag]) and, inside the latter, its own plain field New (never
-   set). Every step REPORTS, next to the new configuration, the accesses it
+   sync.Pool ([p_bag]) and, inside the latter, its own plain field New
+   ([p_poolnew], never set). Every step REPORTS, next to the new configuration, the accesses it
    makes to that shared state (ghost output, produced by the same branch that
    performs the effect): a plain (unsynchronised) read or write of a field, or
    a call into sync.Pool, which is synchronised inside the runtime (trusted).
    Everything else a step touches (program, pc, held items, counters) is local
-   to the stepping goroutine; the trace is ghost. AtomicPoolProofs.v proves
-   that the report is faithful (a step that does not report an access to a
-   location neither depends on it nor changes it) and that no step of any
-   run reports a plain write. *)
+   to the stepping goroutine; the trace is ghost (written, never read).
+   AtomicPoolProofs.v proves that the report is faithful (a step that does not
+   report an access to a location neither depends on it nor changes it; a
+   step neither changes nor depends on the locals of another goroutine) and
+   that no step of any run reports a plain write. *)
 Inductive pfield := FNew | FPoolNew.          (* Pool.New and the inner sync.Pool.New *)
 Inductive paccess :=
 | PlainRead (f : pfield)
@@ -395,7 +399,7 @@ Definition pstep_thread_acc (c : pconfig) (t : tid) (ch : pchoice) : option (pco
   match nth_error (p_threads c) t with
   | None => None
   | Some th =>
-    let put bag th' e accs := Some (PConfig (p_new c) bag (set_pthread (p_threads c) t th') (e :: p_trace c), accs) in
+    let put bag th' e accs := Some (PConfig (p_new c) (p_poolnew c) bag (set_pthread (p_threads c) t th') (e :: p_trace c), accs) in
     match p_pc th with
     | GIdle =>
         (* invocation: arguments and receiver only, no shared access *)
@@ -405,7 +409,7 @@ Definition pstep_thread_acc (c : pconfig) (t : tid) (ch : pchoice) : option (pco
         | PPutHeld k :: rest =>
             match nth_error (p_held th) k with
             | Some v => put (p_bag c) (PThread rest (PutCall v) (remove_nth k (p_held th)) (p_fresh th) (p_got th)) (PEInvPut t v) []
-            | None => Some (PConfig (p_new c) (p_bag c) (set_pthread (p_threads c) t
+            | None => Some (PConfig (p_new c) (p_poolnew c) (p_bag c) (set_pthread (p_threads c) t
                               (PThread rest GIdle (p_held th) (p_fresh th) (p_got th))) (p_trace c), [])
             end
         | PPutFresh :: rest =>
@@ -415,9 +419,9 @@ Definition pstep_thread_acc (c : pconfig) (t : tid) (ch : pchoice) : option (pco
         end
     | GCheckNew =>
         (* if p.New == nil { var x T; return x }        plain read of New *)
-        if p_new c then Some (PConfig (p_new c) (p_bag c) (set_pthread (p_threads c) t
+        if p_new c then Some (PConfig (p_new c) (p_poolnew c) (p_bag c) (set_pthread (p_threads c) t
                                (PThread (p_prog th) GPool (p_held th) (p_fresh th) (p_got th))) (p_trace c), [PlainRead FNew])
-        else Some (PConfig (p_new c) (p_bag c) (set_pthread (p_threads c) t
+        else Some (PConfig (p_new c) (p_poolnew c) (p_bag c) (set_pthread (p_threads c) t
                                (PThread (p_prog th) (GRet Zero SrcZeroNoNew) (p_held th) (p_fresh th) (p_got th))) (p_trace c), [PlainRead FNew])
     | GPool =>
         (* x := p.pool.Get()       sync.Pool.Get; on a miss it reads its own (nil) New field *)
@@ -427,7 +431,14 @@ Definition pstep_thread_acc (c : pconfig) (t : tid) (ch : pchoice) : option (pco
             | Some v => put (remove_nth i (p_bag c)) (PThread (p_prog th) (GRet v SrcBag) (p_held th) (p_fresh th) (p_got th)) (PETake t v) [PoolInternal]
             | None => None
             end
-        | Miss => put (p_bag c) (PThread (p_prog th) GNew (p_held th) (p_fresh th) (p_got th)) (PEMiss t) [PoolInternal; PlainRead FPoolNew]
+        | Miss =>
+            (* sync.Pool.Get found nothing: "if x == nil && p.New != nil { x = p.New() }" on ITS OWN field New *)
+            if p_poolnew c
+            then let v := Tok t (p_fresh th) in
+                 put (p_bag c) (PThread (p_prog th) (GRet v SrcNew) (p_held th) (S (p_fresh th)) (p_got th)) (PENew t v)
+                     [PoolInternal; PlainRead FPoolNew]
+            else put (p_bag c) (PThread (p_prog th) GNew (p_held th) (p_fresh th) (p_got th)) (PEMiss t)
+                     [PoolInternal; PlainRead FPoolNew]
         end
     | GNew =>
         (* return p.New()          plain read of New, then the call of the hook *)
@@ -449,7 +460,7 @@ Definition pstep (c : pconfig) (a : sitem) : option pconfig :=
   | SThr t ch => pstep_thread c t ch
   | SGc i =>
       match nth_error (p_bag c) i with
-      | Some v => Some (PConfig (p_new c) (remove_nth i (p_bag c)) (p_threads c) (PEDrop v :: p_trace c))
+      | Some v => Some (PConfig (p_new c) (p_poolnew c) (remove_nth i (p_bag c)) (p_threads c) (PEDrop v :: p_trace c))
       | None => None
       end
   end.
@@ -461,7 +472,7 @@ Fixpoint prun (c : pconfig) (s : list sitem) : pconfig :=
   end.
 
 Definition pinit (new : bool) (progs : list (list pop)) : pconfig :=
-  PConfig new [] (map (fun p => PThread p GIdle [] 0 []) progs) [].
+  PConfig new false [] (map (fun p => PThread p GIdle [] 0 []) progs) [].
 
 (* every place a value can be: the bag, a thread's hands, a call in flight *)
 Definition inflight (p : ppc) : list val :=
@@ -488,8 +499,12 @@ Definition conflicting (a1 a2 : paccess) : Prop :=
             (a2 = PlainWrite f /\ a1 = PlainRead f).
 
 (* the same configuration with another value of a shared location *)
-Definition with_new (b : bool) (c : pconfig) : pconfig := PConfig b (p_bag c) (p_threads c) (p_trace c).
-Definition with_bag (bag : list val) (c : pconfig) : pconfig := PConfig (p_new c) bag (p_threads c) (p_trace c).
+Definition with_new (b : bool) (c : pconfig) : pconfig := PConfig b (p_poolnew c) (p_bag c) (p_threads c) (p_trace c).
+Definition with_poolnew (b : bool) (c : pconfig) : pconfig := PConfig (p_new c) b (p_bag c) (p_threads c) (p_trace c).
+(* ... and with another state of another goroutine t' *)
+Definition with_thread (t' : tid) (th : pthread) (c : pconfig) : pconfig :=
+  PConfig (p_new c) (p_poolnew c) (p_bag c) (set_pthread (p_threads c) t' th) (p_trace c).
+Definition with_bag (bag : list val) (c : pconfig) : pconfig := PConfig (p_new c) (p_poolnew c) bag (p_threads c) (p_trace c).
 
 (* counting events about a value *)
 Definition pcount (f : pevent -> bool) (tr : list pevent) : nat := length (filter f tr).
